@@ -175,7 +175,7 @@ def _len(I, a, k):
     if isinstance(x, SIter):
         return wrap(A.T(x.length))
     if hasattr(x, "length") and getattr(x, "_pyvc_ok", False):
-        return x.length()
+        return x.length() if callable(x.length) else wrap(A.T(x.length))
     if isinstance(x, (list, tuple, dict, str, set)):
         return len(x)
     return NotImplemented
